@@ -407,11 +407,76 @@ type depthCase struct {
 	Type   string `json:"type"`
 	Levels int    `json:"levels"`
 	Limit  int    `json:"limit"`
+	Hops   []int  `json:"hops,omitempty"` // explicit walk (field numbers) instead of the cyclic path
+}
+
+// walkPayload nests empty messages along an explicit walk of message-typed
+// fields starting at md (map fields are entered through their value).
+func walkPayload(md protoreflect.MessageDescriptor, hops []int) ([]byte, bool) {
+	var chain []hop
+	cur := md
+	for _, n := range hops {
+		fd := cur.Fields().ByNumber(protoreflect.FieldNumber(n))
+		if fd == nil {
+			return nil, false
+		}
+		switch {
+		case fd.IsMap() && fd.MapValue().Message() != nil:
+			chain = append(chain, hop{fd.Number(), true})
+			cur = fd.MapValue().Message()
+		case fd.Message() != nil && !fd.IsMap():
+			chain = append(chain, hop{fd.Number(), false})
+			cur = fd.Message()
+		default:
+			return nil, false
+		}
+	}
+	return nestedPayload(chain, len(chain)), true
+}
+
+// messageWalks enumerates every walk of length 1 and 2 through message-typed
+// fields of md (each decode site of the generated unmarshal code is the last
+// hop of some walk).
+func messageWalks(md protoreflect.MessageDescriptor) [][]int {
+	var out [][]int
+	step := func(m protoreflect.MessageDescriptor) []protoreflect.FieldDescriptor {
+		var fs []protoreflect.FieldDescriptor
+		for i := 0; i < m.Fields().Len(); i++ {
+			fd := m.Fields().Get(i)
+			if (fd.IsMap() && fd.MapValue().Message() != nil) || (!fd.IsMap() && fd.Message() != nil) {
+				fs = append(fs, fd)
+			}
+		}
+		return fs
+	}
+	target := func(fd protoreflect.FieldDescriptor) protoreflect.MessageDescriptor {
+		if fd.IsMap() {
+			return fd.MapValue().Message()
+		}
+		return fd.Message()
+	}
+	for _, f1 := range step(md) {
+		out = append(out, []int{int(f1.Number())})
+		for _, f2 := range step(target(f1)) {
+			out = append(out, []int{int(f1.Number()), int(f2.Number())})
+		}
+	}
+	return out
 }
 
 func runDepthArm(ctx *Ctx) {
 	var cases []depthCase
 	i := 0
+	// every message-typed decode site: walks of length 1 and 2 from every type,
+	// with the limit exactly exhausted (reject) and one above (accept)
+	for ti, t := range model.Types() {
+		if (ctx.OnlyFresh && !t.Fresh) || ti%ctx.NShards != ctx.Shard {
+			continue
+		}
+		for _, w := range messageWalks(t.Desc) {
+			cases = append(cases, depthCase{Type: string(t.Name), Hops: w, Limit: len(w)}, depthCase{Type: string(t.Name), Hops: w, Limit: len(w) + 1})
+		}
+	}
 	for _, t := range model.Types() {
 		if ctx.OnlyFresh && !t.Fresh {
 			continue
@@ -426,15 +491,15 @@ func runDepthArm(ctx *Ctx) {
 		for r := 1; r <= 8; r++ {
 			for d := r - 2; d <= r+2; d++ {
 				if d >= 0 {
-					cases = append(cases, depthCase{string(t.Name), d, r})
+					cases = append(cases, depthCase{Type: string(t.Name), Levels: d, Limit: r})
 				}
 			}
 		}
 		for _, d := range []int{9990, 9998, 9999, 10000, 10001, 10010} {
-			cases = append(cases, depthCase{string(t.Name), d, 0})
+			cases = append(cases, depthCase{Type: string(t.Name), Levels: d, Limit: 0})
 		}
 		if !ctx.Quick() {
-			cases = append(cases, depthCase{string(t.Name), 50000, 0}, depthCase{string(t.Name), 20000, 30000})
+			cases = append(cases, depthCase{Type: string(t.Name), Levels: 50000}, depthCase{Type: string(t.Name), Levels: 20000, Limit: 30000})
 		}
 	}
 	if len(cases) == 0 {
@@ -468,7 +533,7 @@ func runDepthArm(ctx *Ctx) {
 			var dc depthCase
 			parts := strings.SplitN(strings.TrimPrefix(ln, "DEPTH-BAD "), " :: ", 2)
 			_ = json.Unmarshal([]byte(parts[0]), &dc)
-			ctx.Violation(&Case{Sub: "depth", Type: dc.Type, Args: map[string]string{"levels": strconv.Itoa(dc.Levels), "limit": strconv.Itoa(dc.Limit)}}, parts[1])
+			ctx.Violation(&Case{Sub: "depth", Type: dc.Type, Args: map[string]string{"levels": strconv.Itoa(dc.Levels), "limit": strconv.Itoa(dc.Limit), "hops": hopsStr(dc.Hops)}}, parts[1])
 			ctx.T.Fail()
 			current = ""
 		case ln == "DEPTH-DONE":
@@ -479,7 +544,7 @@ func runDepthArm(ctx *Ctx) {
 		// the child died: the case it announced last is the witness
 		var dc depthCase
 		if current != "" && json.Unmarshal([]byte(current), &dc) == nil {
-			ctx.Violation(&Case{Sub: "depth", Type: dc.Type, Args: map[string]string{"levels": strconv.Itoa(dc.Levels), "limit": strconv.Itoa(dc.Limit)}},
+			ctx.Violation(&Case{Sub: "depth", Type: dc.Type, Args: map[string]string{"levels": strconv.Itoa(dc.Levels), "limit": strconv.Itoa(dc.Limit), "hops": hopsStr(dc.Hops)}},
 				fmt.Sprintf("child process died while decoding nesting depth %d with RecursionLimit %d (err=%v): %s", dc.Levels, dc.Limit, err, trunc(tailStr(out.String(), 600), 600)))
 			ctx.T.Fail()
 		} else {
@@ -511,7 +576,7 @@ func depthChild() {
 		if err != nil {
 			fmt.Printf("DEPTH-BAD %s :: %s\n", js, strings.ReplaceAll(err.Error(), "\n", " | "))
 		} else {
-			fmt.Printf("DEPTH-OK %s %d %d %s\n", dc.Type, dc.Levels, dc.Limit, verdict)
+			fmt.Printf("DEPTH-OK %s %d/%s %d %s\n", dc.Type, dc.Levels, hopsStr(dc.Hops), dc.Limit, verdict)
 		}
 	}
 	fmt.Println("DEPTH-DONE")
@@ -522,11 +587,20 @@ func checkDepth(dc depthCase) (string, error) {
 	if err != nil {
 		return "", err
 	}
-	path := cyclePath(t.Desc)
-	if path == nil {
-		return "not-recursive", nil
+	var b []byte
+	if len(dc.Hops) > 0 {
+		var ok bool
+		if b, ok = walkPayload(t.Desc, dc.Hops); !ok {
+			return "", fmt.Errorf("HARNESS: walk %v is not valid for %s", dc.Hops, dc.Type)
+		}
+		dc.Levels = len(dc.Hops)
+	} else {
+		path := cyclePath(t.Desc)
+		if path == nil {
+			return "not-recursive", nil
+		}
+		b = nestedPayload(path, dc.Levels)
 	}
-	b := nestedPayload(path, dc.Levels)
 	opts := proto.UnmarshalOptions{RecursionLimit: dc.Limit}
 	d := t.NewD()
 	derr := opts.Unmarshal(b, d)
@@ -552,7 +626,7 @@ func checkDepth(dc depthCase) (string, error) {
 func replayC06(ctx *Ctx, c *Case) error {
 	switch c.Sub {
 	case "depth":
-		_, err := checkDepth(depthCase{c.Type, c.argInt("levels"), c.argInt("limit")})
+		_, err := checkDepth(depthCase{Type: c.Type, Levels: c.argInt("levels"), Limit: c.argInt("limit"), Hops: parseHops(c.arg("hops"))})
 		return err
 	case "fuzz":
 		return fuzzOne(ctx, unhex(c.Bytes))
@@ -597,3 +671,21 @@ func fuzzDecode(f *testing.F) {
 }
 
 var _ = reflect.TypeOf
+
+func hopsStr(h []int) string {
+	var parts []string
+	for _, n := range h {
+		parts = append(parts, strconv.Itoa(n))
+	}
+	return strings.Join(parts, ".")
+}
+
+func parseHops(s string) []int {
+	var out []int
+	for _, p := range strings.Split(s, ".") {
+		if n, err := strconv.Atoi(p); err == nil {
+			out = append(out, n)
+		}
+	}
+	return out
+}
